@@ -48,4 +48,16 @@ func TestVerif_OpsWide(t *testing.T) {
 	})
 	r.Finish()
 }
+
+// The same operations while change iterators come and go (started DB in a synctest bubble, collector every 1 ms of virtual time):
+// Insert and Delete then also maintain the graveyard, and a re-insert meets dead objects left by closed iterators.
+func TestVerif_OpsIterators(t *testing.T) {
+	r := vkit.Start(t, "C03", "ops-iterators", "exploration", rule+" (variant: change iterators are created, read and closed between and inside the transactions, directed delete / close-last-iterator / re-insert / new-iterator / delete sequences included)")
+	r.Require("return_value_checks", "commits")
+	dbsim.BubbleCases(t, r, vkit.N(800, 40000), dbsim.Opts{Tables: 2, Txns: 60, MaxOps: 6, ProbesPerIndex: 1, AbortPct: 20, Iterators: true, Retain: 2,
+		Report: map[string]bool{"ret": true, "query": true, "abort": true, "panic": true}},
+		func(s *dbsim.Sim) bool { return s.RetChecks() >= 5 && s.Commits() > 0 })
+	r.Finish()
+}
+
 func TestVerifRace_Ops(t *testing.T) { run(t, "ops-race", vkit.N(200, 4000)) }
